@@ -41,7 +41,7 @@ Explained(e) ==
 DupMerge(e) == e.ev = "Voucher" /\ Cardinality(MergedLanes(e.v)) < Len(e.v.merges)
 Tag(e) == IF DupMerge(e) THEN "dup-merge-lane" ELSE "-"
 
-Chk(prop, name, holds, e) == holds \/ PrintT(<<"VIOL", prop, name, l, Tag(e), e.ev>>)
+Chk(prop, name, holds, e) == IF holds THEN TRUE ELSE PrintT(<<"VIOL", prop, name, l, Tag(e), e.ev>>)
 
 TStep ==
   /\ l <= Len(Rec)
